@@ -195,6 +195,12 @@ fn case(run: &Run, i: u64, rng: &mut Rng, st: &mut State, thorough: bool) {
         st.violation("harness:generated-trace-invalid", J::obj(vec![("why", J::s(e)), ("shape", shape.json())]));
         return;
     }
+    if shape.n() * shape.width() <= 1 << 12 {
+        if let Err(e) = stark::library_validate(fd, &shape, &options, &cols, &values) {
+            st.violation("Trace::validate-refuses-valid-trace", J::obj(vec![("why", J::s(e)), ("shape", shape.json())]));
+        }
+        st.count("validity.cross_checked_with_Trace::validate");
+    }
     let inst = Instance { fd, hs, shape: shape.clone(), options: options.clone(), cols, values };
     let feats = features(&shape, &options);
     let tag = if kind != TraceKind::Random { format!("[{:?}]", kind) } else { String::new() };
